@@ -148,7 +148,7 @@ def default_scope(case_line):
     return True
 
 def run_corr(ctx, rep, profiles, fields, oracle=None, classify=None, timeout_ms=4000,
-             ref_fields=None, scope=default_scope, known_quirks=None, derive=None, spec_flag="-ref", spec_name="Ref", ref_skip=None,
+             ref_fields=None, scope=default_scope, known_quirks=None, foreign_quirks=None, derive=None, spec_flag="-ref", spec_name="Ref", ref_skip=None,
              emitted=None, emitted_fields=None, api=None):
     """profiles: list of (profile name, n_quick, n_thorough).
     fields: observables on which the model (faithful quirks) and the implementation must agree.
@@ -265,6 +265,13 @@ def run_corr(ctx, rep, profiles, fields, oracle=None, classify=None, timeout_ms=
                     if not hasattr(rep, "attributed_cases"):
                         rep.attributed_cases = set()
                     rep.attributed_cases.add(cid)
+                    continue
+                if q and foreign_quirks and all(x in known_quirks or x in foreign_quirks for x in q):
+                    # explained by a recorded finding of another property (reported by that property's check)
+                    dist["explained_by_a_finding_of_another_property:" + ",".join(sorted(foreign_quirks.get(x, known_quirks.get(x, x)) for x in q))] += 1
+                    for x in q:
+                        if x in known_quirks:
+                            known_hits[known_quirks[x]] += 1
                     continue
                 q2 = classify(l, i, model.get(cid, {}), "implementation/specification disagree on %s" % f) if classify else None
                 if q2:
